@@ -182,6 +182,16 @@ CHECKS = {
                      'disjoint policies / other mode give TS_UNACCEPTABLE; widened, shifted, swapped, wide-first or mode-flipped '
                      'responses leave nothing installed.',
                 note='exhaustive only for the stated universe; the larger-or-smaller lookup rule of the code is taken as documented'),
+    'C02': dict(level='exploration', design='3 C02',
+                technique='Hypothesis-generated configuration pairs and a complete grid of attacks through the real main_loop: '
+                          'reference verification of every emitted AUTH; man-in-the-middle edits of messages 1-2 via the reference '
+                          'codec; an insider who re-encrypts messages 3-4 with AUTH values the reference computes over wrong '
+                          'inputs (positive control with the right inputs); credential faults between real daemons',
+                text='Every emitted AUTH verifies over the exact IKE_SA_INIT octets | peer nonce | prf(SK_p, ID); 20 kinds of '
+                     'in-flight edits of messages 1 and 2 and byte flips of 3 and 4 never lead to an established IKE_SA at the '
+                     'receiver; 20 wrong-AUTH / wrong-identity variants by a key-holding insider against both roles, PSK and RSA, '
+                     'are refused while the reference-correct AUTH is accepted; 7 credential / identity / method mismatches fail.',
+                note='SK_* for the insider come from the reference key schedule with DH secrets read from the recorded DH objects'),
 }
 
 NOT_YET = 'check not built yet in this session (planned, see DESIGN.md section 8)'
